@@ -109,7 +109,7 @@ func verifC25Middleware(st *verifC25Store, now int64) *lifecycleReconcilerStorag
 // symbolic filter of a rule; returns the reference verdict for (key,size,tags)
 func verifC25Filter(rule *storage.LifecycleRule, key string, size int64, objTagVal *string) bool {
 	matches := true
-	plen := verifPick("prefixLen", 0, 2)
+	plen := verifPick("prefixLen", 0, verifParam("prefixLen", 2))
 	prefix := verifC25Key("prefix", plen)
 	// byte-for-byte prefix
 	pm := len(key) >= plen
@@ -117,7 +117,7 @@ func verifC25Filter(rule *storage.LifecycleRule, key string, size int64, objTagV
 		pm = verifStrEq(key[:plen], prefix)
 	}
 	matches = matches && pm
-	form := verifPick("filterForm", 0, 3)
+	form := verifParam("filterForm", 1)
 	gt := verifMathInt64("sizeGreaterThan")
 	lt := verifMathInt64("sizeLessThan")
 	verifAssume(gt >= 0 && gt <= 1<<50 && lt >= 0 && lt <= 1<<50)
@@ -166,7 +166,7 @@ func verifC25Filter(rule *storage.LifecycleRule, key string, size int64, objTagV
 // VerifC25CurrentObject: one current object, one rule carrying an Expiration
 // and/or one Transition, symbolic clock.
 func VerifC25CurrentObject() {
-	keyLen := verifPick("keyLen", 1, 2)
+	keyLen := 2
 	key := verifC25Key("key", keyLen)
 	size := verifMathInt64("size")
 	created := verifMathInt64("created")
@@ -182,7 +182,7 @@ func VerifC25CurrentObject() {
 	}
 	etag := "etag-listed"
 	obj := storage.Object{Key: storage.MustNewObjectKey(key), Size: size, LastModified: verifC25At(created), ETag: etag}
-	if verifBool("tagsInListing") {
+	if objTag != nil && verifBool("tagsInListing") {
 		obj.Tags = tags
 	}
 	st := &verifC25Store{objects: []storage.Object{obj}, tags: tags}
